@@ -2,9 +2,10 @@
 `JSXTagAttrDict.__setitem__ / _update / update / __init__`, `JSXTag.__init__ / extend / append / __copy__`, called as
 *functions* (unbound, `self` = first value) on the realised values, for the ops `src` (ops_src.py) and
 
-  srcc20b [ (<str> <str.upper() of it>)… ] <function> [ <pval>… ]
+  srcc20b [ (<str> <str.upper() of it>)… ] [ (<version string> <str(Version(it))>)… ] <function> [ <pval>… ]
 
-whose table is what the *Lean* side needs (`Globals.upperC20b`; the real `str.upper` needs nothing).
+whose tables are what the *Lean* side needs (`Globals.upperC20b`, `Globals.mkVersion`; the real `str.upper` and `packaging`
+need nothing).  A Version object is encoded with rank 0 (`versionObjC10b 0 text`).
 
 Values: a JSXTagAttrDict is carried as a dict (`M [ … ]`: a receiver is realised as a JSXTagAttrDict holding exactly these
 items, a result is encoded as its items); a JSXTag / Tag / TagList as the `__dict__` the translated methods see (a JSXTag:
@@ -65,6 +66,16 @@ def _dep(fields):
     return x
 
 
+def _tag(fields):
+    import htmltools
+    tg = htmltools.Tag(fields["name"], _add_ws=fields["add_ws"])
+    dict.update(tg.attrs, fields["attrs"])
+    tg.children = fields["children"]
+    tg._c20b_in = True
+    return tg
+
+
+ops_src.REALIZE["Tag"] = _tag
 ops_src.REALIZE["jsx"] = _jsx
 ops_src.REALIZE["JSXTag"] = _jsxtag
 ops_src.REALIZE["MetadataNode"] = _meta
@@ -80,8 +91,16 @@ def _enc(v, enc):
     if type(v) is m.JSXTag:
         return "O JSXTag [ " + "".join(f"{k} {enc(dict(x) if isinstance(x, dict) else x)} " for k, x in vars(v).items()) + "]"
     if type(v) is htmltools.Tag:
-        return (f"O Tag [ name {enc(v.name)} attrs {enc(dict(v.attrs))} children {enc(v.children)} "
-                f"add_ws {enc(v.add_ws)} ]")
+        if getattr(v, "_c20b_in", False):           # a Tag of the input: the four fields of `embJNode`
+            return (f"O Tag [ name {enc(v.name)} attrs {enc(dict(v.attrs))} children {enc(v.children)} "
+                    f"add_ws {enc(v.add_ws)} ]")
+        # a Tag the function under test built: its `__dict__` in assignment order
+        return "O Tag [ " + "".join(f"{k} {enc(dict(x) if isinstance(x, dict) else x)} " for k, x in vars(v).items()) + "]"
+    if type(v) is htmltools.HTMLDependency and not hasattr(v, "_c20b_fields"):
+        return "O HTMLDependency [ " + "".join(f"{k} {enc(x)} " for k, x in vars(v).items()) + "]"
+    from packaging.version import Version
+    if isinstance(v, Version):
+        return "O Version [ rank I 0 text S " + es(str(v)) + " ]"
     if type(v) is htmltools.TagList:
         return f"O TagList [ data {enc(list(v.data))} ]"
     if hasattr(v, "_c20b_fields"):
@@ -177,14 +196,17 @@ def _call_walk(a):
     return (r, md)
 
 
+ops_src.CALLS["lib_dependencyC20b"] = lambda a: _jsxmod()._lib_dependency(a[0], a[1])
+ops_src.CALLS["JSXTag_tagifyC20b"] = lambda a: _jsxmod().JSXTag.tagify(a[0])
 ops_src.CALLS["JSXTag_tagify_visitorC20b"] = _call_visitor
 ops_src.CALLS["walk_attrs_and_childrenC20b"] = _call_walk
 
 
 @op("srcc20b")
 def _srcc20b(t: Toks) -> str:
-    assert t.next() == "["        # the upper-casing table: needed by the Lean side only
-    while t.peek() != "]":
+    for _ in range(2):            # the upper-casing table, the versions table: needed by the Lean side only
+        assert t.next() == "["
+        while t.peek() != "]":
+            t.next()
         t.next()
-    t.next()
     return ops_src._src(t)
